@@ -64,6 +64,42 @@ def check_claim(ctx, model):
             f = dict(zip(rv["fields"], rv["ops"]))
             if rew(v.origins_of_operand(f["amount"], at=(b, i))):
                 n_agg += 1
+    # the reward of a fee entry is paid, debited and credited in THAT entry's asset: every Asset{amount: reward} carries
+    # fee.info, and each ledger update happens under `entry.info == fee.info`
+    fee_roots = set()
+    for b, t in muls:
+        for o in arg_origins(v, b, t, 0):
+            fee_roots.add((o.kind, o.a, tuple(o.proj[:-1])))
+    is_fee_info = lambda os_: bool(os_) and all((o.kind, o.a, tuple(o.proj[:-1])) in fee_roots and o.proj and o.proj[-1] == "info" for o in os_)
+    bad_info = []
+    for b, i, s_ in v.iter_stmts():
+        rv = s_["rv"]
+        if rv["r"] == "agg" and rv.get("adt", "").endswith("asset::Asset"):
+            f = dict(zip(rv["fields"], rv["ops"]))
+            if rew(v.origins_of_operand(f["amount"], at=(b, i))):
+                io = v.origins_of_operand(f["info"], at=(b, i))
+                if not is_fee_info(io):
+                    bad_info.append("line %s: info from %s" % (s_.get("ln"), sorted(map(repr, io))))
+    ctx.ob("C09-D1", "%s|reward-in-the-fee-entry's-asset" % CLAIM, not bad_info and n_agg >= 2,
+           "Asset{amount: reward} entries carry fee.info" if not bad_info else "; ".join(bad_info), v.where())
+    eq_edges = {"available": [], "claimed": []}
+    for b, c, _ in switch_conds(v):
+        if c.kind != "cmp" or c.op not in ("==", "!="):
+            continue
+        at = cond_at(v, c)
+        oa, ob = v.origins_of_operand(c.a, at=at), v.origins_of_operand(c.b, at=at)
+        te, fe = cmp_true_false_edges(v, b, c)
+        eq = te if c.op == "==" else fe
+        for x, y in ((oa, ob), (ob, oa)):
+            if is_fee_info(y) and x and all(o.proj and o.proj[-1] == "info" for o in x):
+                for led in ("available", "claimed"):
+                    # (an entry pushed earlier in this call may itself have been built from fee.info)
+                    if any(led in o.proj for o in x) and all(led in o.proj or is_fee_info({o}) for o in x):
+                        eq_edges[led] += eq
+    for led, sites in (("available", subs), ("claimed", adds)):
+        ok = bool(sites) and bool(eq_edges[led]) and all(v.edge_dominated(b, eq_edges[led]) for b, t in sites)
+        ctx.ob("C09-D1", "%s|%s-updated-for-the-same-asset-only" % (CLAIM, led), ok,
+               "every %s update is dominated by `entry.info == fee.info`: %s" % (led, ok), v.where(sites[0][0]) if sites else v.where())
     ctx.ob("C09-D1", "%s|reward-assets" % CLAIM, n_agg >= 2, "Asset{amount: reward} constructions (claimed initial entry, payout entry): %d" % n_agg, v.where())
     saves = storage_calls(v, "fee_distributor::state::EPOCHS", ("save",))
     for sb, st in saves:
